@@ -120,7 +120,7 @@ func (c *FileCache) Close(file *os.File) error {
 		return nil
 	}
 
-	if elem, ok := c.cache[name]; ok {
+	if elem, ok := c.cache[name]; ok && elem.Value.(*entry).file == file {
 		ent := elem.Value.(*entry)
 		if ent.refs == 0 {
 			return &os.PathError{Op: "close", Path: name, Err: os.ErrClosed}
